@@ -683,4 +683,59 @@ Section SweeperTheorems.
     transitivity ((u m x -! dt *! C -! dt *! C') +! dt *! C +! dt *! C'); [ring|]. rewrite H. ring.
   Qed.
 
+  (* ================================================================ imex_1st_order_mass *)
+  (* contract of the mass problem's solve_system: mass(w) - a * f_impl(w, t) = rhs *)
+  Definition mass_solver_contract (massop : V -> V) : Prop :=
+    forall rhs a ug t x, massop (solve 0 rhs a ug t) x -! a *! feval t (solve 0 rhs a ug t) 0 x = rhs x.
+
+  Lemma sumf_first (g : nat -> K) n : sumf g 0 (S n) = g 0 +! sumf g 1 n.
+  Proof. reflexivity. Qed.
+
+  Theorem mass_sweep_matrix_form QI QE massop level0 u f tau :
+    mass_solver_contract massop ->
+    let r := mass_update kO kadd kmul ksub M dt t0 nodes Q solve feval QI QE massop level0 u f tau in
+    let u0m := if level0 then massop (u 0) else u 0 in
+    (forall j, j = 0 \/ M < j -> fst r j = u j /\ snd r j = f j) /\
+    forall m, 1 <= m <= M ->
+      snd r m = feval (tn m) (fst r m) /\
+      forall x,
+        massop (fst r m) x -! dt *! sumf (fun j => QI m j *! snd r j 0 x) 1 m
+                          -! dt *! sumf (fun j => QE m j *! snd r j 1 x) 1 (m - 1)
+        = u0m x +! dt *! sumf (fun j => (Q m j -! QI m j) *! f j 0 x) 1 M
+                +! dt *! sumf (fun j => (Q m j -! QE m j) *! f j 1 x) 1 M +! tauval tau m x.
+  Proof.
+    intros Hc r u0m. unfold mass_update in r. fold u0m in r.
+    set (QDs := fun p : nat => if Nat.eqb p 0 then QI else QE) in *.
+    pose proof (sweep_loop_spec kO kadd kmul dt t0 nodes 2 feval QDs (imex_node_solve kadd kmul dt t0 nodes solve QI)
+                  0 (gather kO kadd kmul ksub M dt Q 2 QDs 0 u0m f tau) M 1 u f (Nat.le_0_l 1)) as S.
+    cbv zeta in S. fold r in S. destruct S as [Sf Sn].
+    split; [intros j Hj; apply Sf; lia|].
+    intros m Hm. destruct (Sn m ltac:(lia)) as [E1 E2]. split; [exact E1|]. intros x.
+    assert (Hnode : massop (fst r m) x -! (dt *! QI m m) *! snd r m 0 x
+                    = accum kadd (gather kO kadd kmul ksub M dt Q 2 QDs 0 u0m f tau m) 0 (m - 0)
+                            (dqd_term kO kadd kmul dt 2 QDs (snd r) m) x).
+    { rewrite E1.
+      remember (accum kadd (gather kO kadd kmul ksub M dt Q 2 QDs 0 u0m f tau m) 0 (m - 0)
+                      (dqd_term kO kadd kmul dt 2 QDs (snd r) m)) as R eqn:HR.
+      rewrite E2. unfold imex_node_solve. apply Hc. }
+    rewrite (rhs_spec kO kI kadd kmul ksub kopp Rth) in Hnode.
+    rewrite (gather_spec kO kI kadd kmul ksub kopp Rth) in Hnode.
+    replace (S M - 0) with (S M) in Hnode by lia. replace (m - 0) with (S (m - 1)) in Hnode by lia.
+    rewrite !sumf_first in Hnode.
+    (* node 0 is never touched: the column-0 terms of the gather and of the node loop cancel *)
+    destruct (Sf 0 ltac:(left; lia)) as [_ Ef0]. 
+    simpl in Hnode. unfold QDs in Hnode. simpl in Hnode. rewrite Ef0 in Hnode.
+    unfold vadd, vzero, vscale in Hnode. rewrite !L2, L4 in Hnode.
+    rewrite (sumf_last (fun j => QI m j *! snd r j 0 x) m) by lia.
+    rewrite !L5.
+    set (A := sumf (fun j => QI m j *! snd r j 0 x) 1 (m - 1)) in *.
+    set (A' := sumf (fun j => QE m j *! snd r j 1 x) 1 (m - 1)) in *.
+    set (B := sumf (fun j => Q m j *! f j 0 x) 1 M) in *.
+    set (B' := sumf (fun j => Q m j *! f j 1 x) 1 M) in *.
+    set (C := sumf (fun j => QI m j *! f j 0 x) 1 M) in *.
+    set (C' := sumf (fun j => QE m j *! f j 1 x) 1 M) in *.
+    transitivity ((massop (fst r m) x -! dt *! QI m m *! snd r m 0 x) -! dt *! A -! dt *! A'); [ring|].
+    rewrite Hnode. ring.
+  Qed.
+
 End SweeperTheorems.
